@@ -5,7 +5,7 @@ ids="$@"; [ -z "$ids" ] && ids=$(ls seeded)
 for id in $ids; do
   p=$(python3 -c "import json;print(json.load(open('seeded/$id/meta.json'))['breaks'])")
   [ -n "$SEED_PROP" ] && p=$SEED_PROP
-  git -C /repo apply seeded/$id/patch.diff || { echo "$id: patch does not apply"; continue; }
+  git -C /repo apply /verif/seeded/$id/patch.diff || { echo "$id: patch does not apply"; continue; }
   out=$(./check $p 2>/dev/null); n=$(echo "$out" | grep -c '^VIOLATION'); nf=$(echo "$out" | grep -c 'no-failing-input-found')
   git -C /repo checkout -- .
   echo "$id -> $p: violation lines=$n (no-failing-input-found=$nf)"
